@@ -95,4 +95,13 @@ theorem C13_geometry_found (m : Media) (fmt : Format) (total : Nat) (cands : Lis
     (probeGeometry m fmt total cands).isSome :=
   probeGeometry_total m fmt total cands h
 
+/-- **The HDFS flag, as the source tests it.**  `smells_like_hdfs` is regenerated from the current
+    identify.cc (Beeb/Generated/Leaf.lean); it is the model's test and it is bit 3 of sector 1 byte 6. -/
+theorem C13_hdfs_flag_leaf (s1 : Sector) :
+    smells_like_hdfs (arr s1) = smellsLikeHdfs s1 ∧
+    smellsLikeHdfs s1 = decide (sget s1 6 / 8 % 2 = 1) := by
+  refine ⟨rfl, ?_⟩
+  unfold smellsLikeHdfs
+  rw [show (8 : Nat) = 2 ^ 3 from rfl, Beeb.Bits.and_pow_ne_zero, Beeb.Bits.testBit_eq]
+
 end Beeb.Props.C13
